@@ -20,10 +20,6 @@ def showPoolErr : PoolErr → String
   | .withdrawDisabled => "err WithdrawDisabled"
   | .settleFailed => "err SettleFailed"
 
-def findStr (key : String) (args : List String) : Option String :=
-  let p := key ++ "="
-  args.findSome? (fun a => if a.startsWith p then some (tok (a.drop p.length).toString) else none)
-
 def optInt (s : String) : Option (Option Int) :=
   if s = "off" then some none else (int? s).map some
 
